@@ -31,7 +31,7 @@ def main():
         def show_memo():
             single, variadic, _, _ = get_shape_memo()
             s = ",".join("%s=%d" % (k, v) for k, v in single.items())
-            v = ",".join("%s=%s%s" % (k, "T" if b else "F", "(" + ",".join(str(int(x)) for x in sh) + ")") for k, (b, sh) in variadic.items())
+            v = ",".join("%s=%s%s" % (k, "T" if b else "F", "(" + ",".join(str(int(x)) for x in sh) + ")") for k, (b, sh) in ((k_, x_ if isinstance(x_, tuple) else (x_.broadcastable, tuple(x_.shape))) for k_, x_ in variadic.items()))
             return "S{%s} V{%s}" % (s, v)
 
         def depth():
